@@ -16,18 +16,27 @@
 (* body `x op y` is replaced TEXTUALLY, so its operands re-associate with  *)
 (* the operators around the reference (Splice, by the precedence table of  *)
 (* ConstExpr).  Only well-formed units are generated: every initialiser is *)
-(* Defined, array bounds are positive.                                     *)
+(* Defined, array bounds are positive, enumerators fit the underlying type.*)
+(* Enums are plain, scoped (`enum class`), with a fixed underlying type    *)
+(* (`: unsigned char`) or both (`enum class : short`); a reference to an   *)
+(* enumerator from outside its enum is spelled qualified / converted by    *)
+(* the renderer, its value is the enumerator's.  An initialiser `(char)v`  *)
+(* (form "cc") has the value v but MAY be reported as unevaluated by a     *)
+(* tool that does not know that cast, and so may every declaration whose   *)
+(* value depends on it (flag mu); all the others must be present and right *)
+(* — in particular the enumerators that FOLLOW an unevaluated one.         *)
 (***************************************************************************)
 EXTENDS ConstExpr
 
 CONSTANTS Lits,        \* literal operands
           Ops,         \* binary operators used in initialisers
-          Forms,       \* subset of {"lit", "ref", "neg", "rl", "lr", "rr"}: initialiser shapes
+          Forms,       \* subset of {"lit", "ref", "neg", "rl", "lr", "rr", "cc"}: initialiser shapes
+          OpenKinds,   \* subset of {"open", "openC", "openU", "openCS"}: enum / enum class / : unsigned char / class : short
           Kinds,       \* subset of {"enumE","enumI","const","constexpr","macroP","macroB","array"}
           MaxDecls,    \* bound on the number of value-carrying declarations
           MaxEnums     \* bound on the number of enums
 
-VARIABLES decls,       \* sequence of [k, e, d, v, bb]
+VARIABLES decls,       \* sequence of [k, e, v, bb, mu]
           inEnum,      \* an enum body is open
           nEnum
 vars == <<decls, inEnum, nEnum>>
@@ -40,12 +49,13 @@ BareBin(i) == decls[i].k = "macroB" /\ decls[i].bb # <<>>
 
 (* Initialiser expressions:
    <<"lit", v>>  <<"ref", i>>  <<"neg", i>>  <<"rl", op, i, v>> (ref op lit)  <<"lr", op, v, i>> (lit op ref)
-   <<"rr", op, i, j>> (ref op ref) *)
+   <<"rr", op, i, j>> (ref op ref)  <<"cc", v>> ((char)lit) *)
 AllExprs ==
   {<<"lit", v>> : v \in Lits} \cup {<<"ref", i>> : i \in Refable} \cup {<<"neg", i>> : i \in Refable}
   \cup {<<"rl", op, i, v>> : op \in Ops, i \in Refable, v \in Lits}
   \cup {<<"lr", op, v, i>> : op \in Ops, v \in Lits, i \in Refable}
   \cup {<<"rr", op, i, j>> : op \in Ops, i \in Refable, j \in Refable}
+  \cup {<<"cc", v>> : v \in Lits}
 Exprs == {e \in AllExprs : e[1] \in Forms}
 
 Lit(v) == <<"lit", v>>
@@ -55,6 +65,7 @@ BinT(op, l, r) == <<"bin", op, l, r>>
 \* The tree a conforming compiler sees after macro replacement
 Tree(e) ==
   CASE e[1] = "lit" -> Lit(e[2])
+    [] e[1] = "cc"  -> <<"cast", "char", Lit(e[2])>>
     [] e[1] = "ref" -> IF BareBin(e[2]) THEN BinT(decls[e[2]].bb[1], Lit(decls[e[2]].bb[2]), Lit(decls[e[2]].bb[3]))
                        ELSE V(e[2])
     [] e[1] = "neg" -> IF BareBin(e[2])
@@ -94,11 +105,28 @@ BB(k, e) ==
 
 Init == decls = <<>> /\ inEnum = FALSE /\ nEnum = 0
 
-Open  == /\ ~inEnum /\ nEnum < MaxEnums /\ NVal < MaxDecls
-         /\ decls' = Append(decls, [k |-> "open", e |-> <<>>, v |-> 0, bb |-> <<>>])
-         /\ inEnum' = TRUE /\ nEnum' = nEnum + 1
-Close == /\ inEnum /\ decls[Len(decls)].k # "open"
-         /\ decls' = Append(decls, [k |-> "close", e |-> <<>>, v |-> 0, bb |-> <<>>])
+AllOpenKinds == {"open", "openC", "openU", "openCS"}
+IsOpen(d) == d.k \in AllOpenKinds
+\* the declaration that opened the enum body we are in
+CurOpen == decls[CHOOSE i \in 1..Len(decls) : IsOpen(decls[i]) /\ \A j \in i + 1..Len(decls) : ~IsOpen(decls[j])]
+\* values an enumerator of the current enum can take
+FitsEnum(v) == CASE CurOpen.k = "openU"  -> v >= 0 /\ v <= 255
+                 [] CurOpen.k = "openCS" -> v >= -32768 /\ v <= 32767
+                 [] OTHER -> TRUE
+
+\* the declarations an initialiser mentions
+RefsOf(e) == CASE e[1] \in {"ref", "neg"} -> {e[2]}
+               [] e[1] = "rl" -> {e[3]}
+               [] e[1] = "lr" -> {e[4]}
+               [] e[1] = "rr" -> {e[3], e[4]}
+               [] OTHER -> {}
+MayBeUnevaluated(e) == e[1] = "cc" \/ \E i \in RefsOf(e) : decls[i].mu
+
+Open(k) == /\ ~inEnum /\ nEnum < MaxEnums /\ NVal < MaxDecls
+           /\ decls' = Append(decls, [k |-> k, e |-> <<>>, v |-> 0, bb |-> <<>>, mu |-> FALSE])
+           /\ inEnum' = TRUE /\ nEnum' = nEnum + 1
+Close == /\ inEnum /\ ~IsOpen(decls[Len(decls)])
+         /\ decls' = Append(decls, [k |-> "close", e |-> <<>>, v |-> 0, bb |-> <<>>, mu |-> FALSE])
          /\ inEnum' = FALSE /\ UNCHANGED nEnum
 
 Value(k, e) ==
@@ -108,19 +136,21 @@ Value(k, e) ==
   /\ LET r == Ev(Tree(e)) IN
      /\ r.d = "ok"
      /\ (k = "array" => r.v > 0 /\ r.v <= 65536)
-     /\ decls' = Append(decls, [k |-> k, e |-> e, v |-> r.v, bb |-> BB(k, e)])
+     /\ (k = "enumE" => FitsEnum(r.v))
+     /\ decls' = Append(decls, [k |-> k, e |-> e, v |-> r.v, bb |-> BB(k, e), mu |-> MayBeUnevaluated(e)])
   /\ UNCHANGED <<inEnum, nEnum>>
 
 \* implicit enumerator: 0 when first, previous + 1 otherwise
 Implicit ==
   /\ "enumI" \in Kinds /\ inEnum /\ NVal < MaxDecls
   /\ LET p == decls[Len(decls)]
-         r == IF p.k = "open" THEN Ok(0) ELSE Add(p.v, 1) IN
-     /\ r.d = "ok"
-     /\ decls' = Append(decls, [k |-> "enumI", e |-> <<>>, v |-> r.v, bb |-> <<>>])
+         r == IF IsOpen(p) THEN Ok(0) ELSE Add(p.v, 1) IN
+     /\ r.d = "ok" /\ FitsEnum(r.v)
+     \* the value is derived from the previous enumerator: it is as (un)evaluable as that one
+     /\ decls' = Append(decls, [k |-> "enumI", e |-> <<>>, v |-> r.v, bb |-> <<>>, mu |-> p.mu])
   /\ UNCHANGED <<inEnum, nEnum>>
 
-Next == Open \/ Close \/ Implicit \/ \E k \in Kinds \ {"enumI"} : \E e \in Exprs : Value(k, e)
+Next == (\E k \in OpenKinds : Open(k)) \/ Close \/ Implicit \/ \E k \in Kinds \ {"enumI"} : \E e \in Exprs : Value(k, e)
 Spec == Init /\ [][Next]_vars
 
 ---------------------------------------------------------------------------
@@ -132,7 +162,7 @@ Complete == ~inEnum /\ NVal >= 1 /\ decls[Len(decls)].k \in {"close", "macroP", 
 \* enumerators of one enum body: an implicit one is exactly one more than its predecessor
 ImplicitOK ==
   \A i \in 1..Len(decls) : decls[i].k = "enumI" =>
-     IF decls[i - 1].k = "open" THEN decls[i].v = 0 ELSE decls[i].v = decls[i - 1].v + 1
+     IF IsOpen(decls[i - 1]) THEN decls[i].v = 0 ELSE decls[i].v = decls[i - 1].v + 1
 
 \* references are primary expressions unless textual: for a parenthesised macro, an enumerator or a
 \* variable, ref op lit is the operator applied to the two values
@@ -149,5 +179,22 @@ SpliceOK ==
      (e # <<>> /\ e[1] = "rl" /\ decls[e[3]].bb # <<>> /\ Prec(e[2]) <= Prec(decls[e[3]].bb[1]))
         => Bin(e[2], decls[e[3]].v, e[4]) = Ok(decls[i].v)
 
-NestingOK == (inEnum => \E i \in 1..Len(decls) : decls[i].k = "open") /\ nEnum <= MaxEnums
+NestingOK == (inEnum => \E i \in 1..Len(decls) : IsOpen(decls[i])) /\ nEnum <= MaxEnums
+
+\* "may be unevaluated" is exactly: the value depends on a (char) cast, directly or through references /
+\* implicit increments; a literal initialiser never is
+RECURSIVE Depends(_)
+Depends(i) ==
+  LET d == decls[i] IN
+  IF d.k = "enumI" THEN (~IsOpen(decls[i - 1]) /\ Depends(i - 1))
+  ELSE IF d.e = <<>> THEN FALSE
+  ELSE d.e[1] = "cc" \/ \E j \in RefsOf(d.e) : Depends(j)
+MuOK == \A i \in 1..Len(decls) : decls[i].mu = Depends(i)
+
+\* enumerators fit their enum's underlying type
+RangeOK == \A i \in 1..Len(decls) :
+  decls[i].k \in {"enumE", "enumI"} =>
+     LET o == CHOOSE j \in 1..i : IsOpen(decls[j]) /\ \A m \in j + 1..i : ~IsOpen(decls[m]) IN
+     /\ (decls[o].k = "openU" => decls[i].v \in 0..255)
+     /\ (decls[o].k = "openCS" => decls[i].v \in -32768..32767)
 =============================================================================
